@@ -71,7 +71,14 @@ func ConnState(conn *grpc.ClientConn) connectivity.State {
 	return st
 }
 
-func ConnClose(conn *grpc.ClientConn) error { return nil }
+// ConnClose replaces (*grpc.ClientConn).Close: tearing the transports down takes
+// a moment (other goroutines run meanwhile).
+func ConnClose(conn *grpc.ClientConn) error {
+	if vsim.Cur() != nil {
+		vsim.Sleep(300 * time.Microsecond)
+	}
+	return nil
+}
 
 // ConnConnect replaces (*grpc.ClientConn).Connect: leaves IDLE.
 //
